@@ -227,7 +227,8 @@ Example c07_example_monitor_flags_kept_key :
 Proof. vm_compute. split; reflexivity. Qed.
 (* a routine started under a root context that is cancelled afterwards records its (error) exit after the container has
    dropped that root (RestartAllRoutines, then ClearContext): the retry timer it arms finds no context and starts
-   nothing.  Retry obligations (7/5) exist only while the container holds a live context: the monitors are silent. *)
+   nothing - the pending retry is consumed by its callback.  A due retry has to be parked / carried out (7/5) only while the
+   container holds a live context: the monitors are silent. *)
 Example c07_example_monitor_silent_late_exit_after_cancelled_root :
   let evs := [[1;1;0]; [2;0;1]; [14;0;1]; [21;1]; [9;1]; [1;0;1]; [15;0;2]; [16;0]; [17;100]; [18;0]; [19]]%N in
   length (run_obs step_opt (hinit [0;0;1;100]%N) evs) = 11%nat /\
@@ -244,8 +245,10 @@ Proof. vm_compute. split; reflexivity. Qed.
      live context belongs to the current record of its key and the container holds a context, 7/3 a new instance belongs to
      a key of the set and an instance runs a record of the incarnation its key had when it was spawned, 7/4 nothing is
      spawned while the container has no context, 7/5 a retry obligation (the recorded error exit of a key's current record,
-     with the back-off duration the script gives for the record's index) that is due has its callback parked - the obligation
-     is the pending retry timer of the record registered under the key, 7/6 a key that the caller's requests have removed
+     with the back-off duration the script gives for the record's index) that is due has its callback parked while the
+     container holds a live context - the obligation is the pending retry timer of the record registered under the key; it
+     survives ClearContext / SetContext(nil) / a cancelled root being dropped (non-restarting calls) and is consumed when its
+     callback runs without a live context, 7/6 a key that the caller's requests have removed
      (reference key set) has no instance with a live context inside its routine function, 7/7 and gets no new instance; all
      clauses of property 6 (6/1 key set, 6/2 data, 6/3 return values, 6/4 references, 6/5 Release calls), and 6/9, 7/9
      (every observation the model produces parses).
@@ -270,6 +273,18 @@ Theorem c07_model_satisfies_monitors_clauses_7_1_7_2_7_3_7_4_7_6_7_7 : forall cf
   monitor (mon_only proved2) 0 (minit cfg) [] evs (run_obs step_opt (hinit cfg) evs) = [].
 Proof. exact model_satisfies_monitors_proved2. Qed.
 Print Assumptions c07_model_satisfies_monitors_clauses_7_1_7_2_7_3_7_4_7_6_7_7.
+(* the pending retry survives ClearContext: error exit, clear inside the back-off window, a new context (no restart), then
+   the deadline: the callback is parked and starts the routine again; the checker reports nothing on the model's trace.
+   On a trace in which the clear stopped the timer (nothing parked at the deadline, seed C07_4A) 7/5 is false there. *)
+Example c07_example_retry_survives_clear :
+  let evs := [[1;1;0]; [2;0;1]; [14;0;1]; [15;0;2]; [16;0]; [17;100]; [1;0;0]; [17;100]; [1;2;0]; [17;100]; [18;0]; [14;1;1]]%N in
+  length (run_obs step_opt (hinit [0;0;1;300]%N) evs) = 12%nat /\
+  run_check_keyed0 [0;0;1;300]%N evs (run_obs step_opt (hinit [0;0;1;300]%N) evs) = [] /\
+  let evs' := firstn 10 evs in
+  let obs' := run_obs step_opt (hinit [0;0;1;300]%N) evs' in
+  let bad := firstn 9 obs' ++ [[1;0;1; 1; 5;0;0;0;0; 0; 0; 0]]%N in
+  existsb (fun x => match x with PropFalse 7%nat 5%nat 9%nat => true | _ => false end) (run_check_keyed0 [0;0;1;300]%N evs' bad) = true.
+Proof. vm_compute. repeat split; reflexivity. Qed.
 (* a zero back-off duration: the retry timer is due the moment it is armed; its callback is parked at once (time.AfterFunc(0)),
    the retry obligation of 7/5 is met *)
 Example c07_example_zero_backoff :
